@@ -168,6 +168,30 @@ def glue_roundtrips(ctx, fmt_name, safe, workdir, r, kw=None):
         d = ctx.definition()
         if d.tostring(frmat=fmt_name, **kw) != text:
             return f'Definition.tostring({fmt_name}) differs from Context.tostring'
+        # an explicit format wins over whatever the file is called
+        other = {'table': '.cxt', 'cxt': '.csv', 'csv': '.txt'}[fmt_name]
+        for sfx in (other, other.upper(), '.dat', ''):
+            path = os.path.join(workdir, f'odd{r.randrange(10**9)}{sfx}')
+            ctx.tofile(path, frmat=fmt_name, **kw)
+            if concepts.Context.fromfile(path, frmat=fmt_name, **lkw) != ctx:
+                return f'fromfile(frmat={fmt_name!r}) of a file named *{sfx} differs'
+            os.remove(path)
+        if fmt_name == 'csv' and not kw:
+            import csv
+
+            class Semi(csv.excel):
+                delimiter = ';'
+                quotechar = "'"
+            for dialect in ('excel-tab', Semi, 'unix'):
+                for as_int in (False, True):
+                    t2 = ctx.tostring(frmat='csv', dialect=dialect, bools_as_int=as_int)
+                    rows = list(csv.reader(io.StringIO(t2, newline=''), dialect=dialect))
+                    exp = [[''] + list(ctx.properties)] + [[o] + [('1' if b else '0') if as_int else ('X' if b else '') for b in row]
+                                                           for o, row in zip(ctx.objects, ctx.bools)]
+                    if rows != exp:
+                        return f'csv written with dialect {dialect!r} is not read back by an independent reader of that dialect'
+                    if concepts.Context.fromstring(t2, frmat='csv', dialect=dialect) != ctx:
+                        return f'csv round trip with dialect {dialect!r} differs'
     except Exception as e:  # noqa: BLE001
         return f'{fmt_name}: raised {e!r}'
     return None
@@ -359,7 +383,46 @@ def cases(tier, seed):
 
 
 def case_from_replay(inp):
-    raise common.Infra('C12 replays are re-run by running the check (the replay file holds the text and labels)')
+    """Re-run the implementation on the recorded input: a loader case holds its source text, every other case
+    holds the labelled table (all observations for that table are regenerated and the recorded one is selected)."""
+    from concepts import formats
+    what = inp.get('what', '')
+    if 'source' in inp:
+        text = inp['source']
+        T, C, V = formats.Format['table'], formats.Format['cxt'], formats.Format['csv']
+        if what.startswith('table'):
+            oc, _ = outcome_of(lambda: T.loads(text))
+            return mk(f'LoadTable {coq(text)} {oc}', inp)
+        if what.startswith('cxt'):
+            oc, _ = outcome_of(lambda: C.loads(text))
+            return mk(f'LoadCxt {coq(text)} {oc}', inp)
+        kw, opt = {}, 'None'
+        if 'as_int=True' in what or ('wrong symbols' in what and False):
+            kw, opt = {'bools_as_int': True}, '(Some true)'
+        elif 'as_int=False' in what:
+            kw, opt = {'bools_as_int': False}, '(Some false)'
+        oc, _ = outcome_of(lambda: V.loads(text, **kw))
+        return mk(f'LoadCsv {opt} {coq(text)} {oc}', inp)
+    if what == 'infer_format':
+        return [c for c in infer_cases() if c.replay.get('filename') == inp.get('filename')][0]
+    rows = [sum(1 << j for j, b in enumerate(r) if b) for r in inp['bools']]
+    cx = gen.Ctx(rows, len(inp['properties']), inp.get('tag', 'replay'))
+    workdir = os.path.join(common.BUILD, f'c12-replay-{os.getpid()}')
+    os.makedirs(workdir, exist_ok=True)
+    try:
+        r = random.Random(0)
+        if what == 'dat' or what == 'fimi file':
+            cx.objects, cx.properties = inp['objects'], inp['properties']
+            cands = dat_cases(cx, workdir, r)
+        else:
+            labels = (inp['objects'], inp['properties'])
+            cands = cases_for(cx, inp.get('alphabet', 'plain'), labels, 'quick', r, workdir)
+        same = [c for c in cands if c.replay.get('what') == what]
+        bad_first = same or cands
+        # evaluate all candidates of that kind as one composite: return the first (the caller evaluates a single case)
+        return bad_first[0]
+    finally:
+        shutil.rmtree(workdir, ignore_errors=True)
 
 
 def distribution(cases):
